@@ -702,3 +702,127 @@ def alt_sib(progs):
                                    'the branch selected for the inline state consults %s and the one for the large state %s: the alternatives are crossed'
                                    % (sorted(ma), sorted(mb)), where=f['pname'], unit=prog.uname))
     return rr
+
+
+# ------------------------------------------------------------------------------ MERGE-ORDER / LEX-SIB / SS-GROW
+def merge_order(progs):
+    rr = RuleResult('MERGE-ORDER', 'merge offers the elements of the source to the destination in the source\'s iteration order (the first of several '
+                                   'elements that are equivalent for the destination wins, as std::set::merge): the cursor that is moved from starts at the '
+                                   'source\'s begin and is never decremented')
+    for prog in progs:
+        for f in prog.amc_functions():
+            if not (in_class(f, FS) or in_class(f, SS)) or short(f['name']) != 'merge' or f.get('body') is None:
+                continue
+            body = f['body']
+            linit = A.local_inits(body)
+            # cursors: locals X with *X moved out of the source:  std::move(*X) handed to insert / push_back
+            cursors = {}
+            for c in A.calls(body):
+                if A.callee(c) == 'std::move' and len(c.get('args', [])) == 1:
+                    a = A.strip(c['args'][0])
+                    if isinstance(a, dict) and ((a.get('k') == 'un' and a.get('op') == '*') or (a.get('k') == 'call' and a.get('op') == '*')):
+                        x = A.strip(a.get('sub') if a.get('k') == 'un' else a.get('obj'))
+                        if isinstance(x, dict) and x.get('k') == 'ref' and x.get('dk') == 'local':
+                            cursors[x['did']] = x.get('name')
+            for did, name in cursors.items():
+                ini = linit.get(did, (None, ''))[0]
+                starts_at_begin = ini is not None and any(A.cshort(c) in ('mbegin', 'begin', 'cbegin') for c in A.calls({'i': ini}))
+                starts_at_end = ini is not None and any(A.cshort(c) in ('mend', 'end', 'cend', 'rbegin') for c in A.calls({'i': ini}))
+                dec = None
+                for st, lhs in A.stores(body):
+                    l = A.strip(lhs)
+                    if isinstance(l, dict) and l.get('k') == 'ref' and l.get('did') == did:
+                        if (st.get('k') == 'un' and st.get('op') == '--') or (st.get('k') == 'bin' and st.get('op') == '-=') or (st.get('k') == 'call' and st.get('op') in ('--', '-=')):
+                            dec = st
+                        if st.get('k') == 'bin' and st.get('op') == '=' and any(A.cshort(c) in ('prev',) for c in A.calls({'r': st.get('rhs')})):
+                            dec = st
+                ok = starts_at_begin and not starts_at_end and dec is None
+                rr.instance('%s|%s' % (f['key'], name), {'function': f['pname'][:150], 'cursor': name, 'starts_at_begin': bool(starts_at_begin), 'decremented': dec is not None})
+                if not ok:
+                    rr.add(Finding('MERGE-ORDER', '%s|%s' % (f['key'], name), prog.site(f, dec) if dec is not None else f['loc'],
+                                   'the source of merge is not traversed from its beginning forwards: among source elements that are equivalent for the destination '
+                                   'comparator another one than the first is transferred (std::set::merge transfers the first)', where=f['pname'], unit=prog.uname))
+    return rr
+
+
+def lex_sib(progs):
+    rr = RuleResult('LEX-SIB', 'every state combination of SmallSet::operator< / <=> returns a lexicographical comparison of (this, other) in that order '
+                               '(or the comparison of the two large sets): the four siblings agree')
+    LEX = {'std::lexicographical_compare', 'std::lexicographical_compare_three_way'}
+    for prog in progs:
+        for f in prog.amc_functions():
+            if f['name'] not in (SS + '::operator<', SS + '::operator<=>') or f.get('body') is None:
+                continue
+            body = f['body']
+            linit = A.local_inits(body)
+
+            def side(n):
+                """'this' / 'other' / None: which set does the range argument come from."""
+                for x in walk(n):
+                    if x.get('k') == 'mem' and x.get('field') and x.get('name') in ('_vec', '_set') and x.get('clsq') == SS:
+                        kind, r = A.root(x.get('base'), linit)
+                        return 'this' if kind == 'this' else 'other'
+                    if x.get('k') == 'ref' and x.get('dk') == 'local' and linit.get(x.get('did')) and linit[x['did']][0] is not None:
+                        s2 = side(linit[x['did']][0])
+                        if s2:
+                            return s2
+                return None
+            for i, rt in enumerate(n for n in walk(body) if n.get('k') == 'ret' and n.get('e') is not None):
+                e = A.strip(rt['e'])
+                ok = False
+                why = 'is not a lexicographical comparison'
+                # look through an implicit conversion / construct of the result
+                cands = [x for x in walk(e) if x.get('k') == 'call' and (A.callee(x) in LEX or x.get('op') in ('<', '<=>'))]
+                top = cands[0] if cands else None
+                if isinstance(e, dict) and e.get('k') == 'un' and e.get('op') == '!':
+                    top = None
+                    why = 'is the negation of another comparison'
+                if top is not None and A.callee(top) in LEX and len(top.get('args', [])) >= 4:
+                    a, b = side(top['args'][0]), side(top['args'][2])
+                    ok = a == 'this' and b == 'other'
+                    why = 'compares (%s, %s) instead of (this, other)' % (a, b)
+                elif top is not None and top.get('op') in ('<', '<=>'):
+                    a = side(top.get('obj') if top.get('method') else top['args'][0])
+                    b = side(top['args'][-1])
+                    ok = a == 'this' and b == 'other'
+                    why = 'compares (%s, %s) instead of (this, other)' % (a, b)
+                rr.instance('%s|%d' % (f['key'], i), {'function': f['pname'][:150], 'return': rel(prog.site(f, rt)), 'lexicographical_this_vs_other': ok})
+                if not ok:
+                    rr.add(Finding('LEX-SIB', '%s|%d' % (f['key'], i), prog.site(f, rt),
+                                   'this state combination of the ordering comparison %s; its siblings return lexicographical_compare(this, other)' % why,
+                                   where=f['pname'], unit=prog.uname))
+    return rr
+
+
+def ss_grow(progs):
+    rr = RuleResult('SS-GROW', 'SmallSet leaves its inline state (the only step that allocates) only when the inline vector is full and a new element has '
+                               'to be added, or when it merges a set that is itself large')
+    for prog in progs:
+        for f in prog.amc_functions():
+            if not in_class(f, SS) or f.get('body') is None:
+                continue
+            body = f['body']
+            gs = [c for c in A.calls(body) if A.callee(c) == SS + '::grow']
+            if not gs:
+                continue
+            P = A.Parents(body)
+            for g in gs:
+                ok = False
+                for cond, truth in P.guards(g):
+                    cn, neg = unwrap_cond(cond)
+                    t = truth != neg
+                    for x in walk(cond):
+                        if x.get('k') == 'call' and A.callee(x) == SS + '::isSmallContFull' and (x.get('obj') is None or A.root(x['obj'])[0] == 'this'):
+                            if isinstance(cn, dict) and cn is A.strip(x) and t:
+                                ok = True
+                        if x.get('k') == 'call' and A.callee(x) == SS + '::isSmall' and x.get('obj') is not None and A.root(x['obj'])[0] == 'param':
+                            # the other operand is large:  if (!o.isSmall()) { if (isSmall()) grow(); ... }
+                            from .encoding import _negated_in
+                            if (truth and _negated_in(cond, x)) or (not truth and not _negated_in(cond, x)):
+                                ok = True
+                rr.instance('%s|%s' % (f['key'], rel(prog.site(f, g))), {'function': f['pname'][:150], 'grow_only_when_full_or_other_large': ok})
+                if not ok:
+                    rr.add(Finding('SS-GROW', '%s' % f['key'], prog.site(f, g),
+                                   'grow() (the inline -> large transition, which allocates) is not conditioned on the inline vector being full: a set that '
+                                   'never needs more than N elements can allocate', where=f['pname'], unit=prog.uname))
+    return rr
